@@ -296,6 +296,15 @@ def run(tier):
     if classes.get("concurrent-pair-overlapped", 0) == 0:
         v.note_inconclusive("no concurrent client pair actually overlapped in time")
     evaluations += refusals(v, ctx, bins, classes)
+    # scratch hygiene: the large transfer files are not needed once the verdict is in
+    for dp, _, fns in os.walk(ctx.wd):
+        for fn in fns:
+            fp = os.path.join(dp, fn)
+            try:
+                if os.path.getsize(fp) > 1_000_000:
+                    os.unlink(fp)
+            except OSError:
+                pass
     cov = {"evaluations": evaluations, "distinct_nontrivial": len(distinct),
            "rule": "the real tftpc binary is run against the real tftpd binary on loopback for sizes {0,1,b-1,b,b+1,wb,wb+1, >65535 blocks at b=8} x blksize {8,512,1428,65464} x windowsize {1,2,16,64,65535} x timeout {1,5,255} x {single,multi} port x {127.0.0.1, ::1} x {download, upload} x {plain, nested, Windows-style path} (seeded sample in quick, full product in thorough), restricted to the loss-free envelope (in-flight datagram truesize <= 100 kB; kernel Udp RcvbufErrors/InErrors sampled around every case). After tftpc exits both trees are snapshotted: only <-rd>/<basename> (download) or <receive dir>/<basename> (upload) may appear and must equal the source. Refusals (ERROR 1, 2, 6): no file changes, error text on the client's output. distinct = distinct parameter tuples.",
            "samples": samples, "exhaustive": False, "classes": classes}
